@@ -349,6 +349,10 @@ func ruleA11(r *Run, p *Prog) {
 		r.Ob("A11", FnName(m)+"/fresh-context-on-every-path", p.Pos(m.Pos()), !leak, true, tern(!leak, "every path gives the returned Context a newly stored context buffer", "some path returns a Context that still carries the receiver's own context slice: field adders then append into the parent's backing array"+pathHint(p, path)))
 	}
 	// derivation methods never write through a pointer receiver (except the documented UpdateContext)
+	ucHelpers := map[*ssa.Function]bool{}
+	if uc := p.Method("", "Logger", "UpdateContext"); uc != nil {
+		ucHelpers = p.exclusiveHelpers(uc) // private steps of UpdateContext are UpdateContext
+	}
 	for _, m := range p.Methods("", "Logger", false) {
 		if m.Signature.Recv() == nil || !isPointer(m.Signature.Recv().Type()) {
 			continue
@@ -364,7 +368,7 @@ func ruleA11(r *Run, p *Prog) {
 				}
 			}
 		})
-		ok := bad == "" || m.Name() == "UpdateContext"
+		ok := bad == "" || m.Name() == "UpdateContext" || (ucHelpers[m] && m.Object() != nil && !m.Object().Exported())
 		r.Ob("A11", FnName(m)+"/receiver-unchanged", p.Pos(m.Pos()), ok, true, tern(ok, "does not modify the logger it is called on"+tern(bad != "", " (documented exception)", ""), "modifies field "+bad+" of the logger it is called on: parents/siblings holding the same *Logger change too"))
 	}
 	for _, tn := range []string{"Logger", "Context"} {
